@@ -48,6 +48,31 @@ class Namespace(typing.Generic[T]):
         """
         raise NotImplementedError()  # pragma: no cover
 
+    def get_load_declared_global(self, name: str) -> expr:
+        """
+        Load a name that this namespace declares `global`.
+        Functions are lowered to nested lambdas, so a plain name would find
+        a same-named local variable of an enclosing function first.
+        """
+        nsp: Namespace = self
+        while not isinstance(nsp, NamespaceGlobal):
+            nsp = nsp.outer_nsp
+            if not isinstance(nsp, NamespaceFunction):
+                continue
+            try:
+                shadowed = nsp.symt.lookup(name).is_local()
+            except KeyError:
+                shadowed = False
+            if shadowed:
+                return Subscript(
+                    value=Call(
+                        func=Name(id="globals", ctx=Load()), args=[], keywords=[]
+                    ),
+                    slice=Constant(value=name),
+                    ctx=Load(),
+                )
+        return Name(id=name, ctx=Load())
+
 
 class NamespaceGlobal(Namespace[symtable.SymbolTable]):
     use_itertools: bool = False
@@ -207,6 +232,12 @@ class NamespaceFunction(Namespace[symtable.Function]):
                 ctx=Load(),
             )
         else:  # globals or locals except free
+            try:
+                declared_global = self.symt.lookup(name).is_declared_global()
+            except KeyError:
+                declared_global = False
+            if declared_global:
+                return self.get_load_declared_global(name)
             return Name(id=name, ctx=Load())
 
 
@@ -311,6 +342,8 @@ class NamespaceClass(Namespace[symtable.Class]):
                 slice=Constant(value=name),
                 ctx=Load(),
             )
+        elif symbol.is_declared_global():
+            return self.get_load_declared_global(name)
         elif symbol.is_global():
             return Name(id=name, ctx=Load())
         else:
